@@ -309,7 +309,49 @@ pub fn first_doc_is_collection(b: &[u8]) -> bool {
     }
 }
 
+/// Offset of the first byte libyaml's reader would refuse while decoding
+/// UTF-8: an invalid sequence or a character outside YAML's printable set.
+pub fn first_forbidden_offset(b: &[u8]) -> Option<usize> {
+    let mut i = 0;
+    while i < b.len() {
+        let rest = &b[i..];
+        let valid = match std::str::from_utf8(rest) {
+            Ok(s) => s,
+            Err(e) if e.valid_up_to() > 0 => std::str::from_utf8(&rest[..e.valid_up_to()]).unwrap(),
+            Err(_) => return Some(i),
+        };
+        for (off, c) in valid.char_indices() {
+            let u = c as u32;
+            let ok = u == 0x09 || u == 0x0A || u == 0x0D || (0x20..=0x7E).contains(&u) || u == 0x85 || (0xA0..=0xD7FF).contains(&u) || ((0xE000..=0xFFFD).contains(&u) && u != 0xFEFF) || (0x10000..=0x10FFFF).contains(&u);
+            if !ok {
+                return Some(i + off);
+            }
+        }
+        i += valid.len();
+        if i < b.len() {
+            return Some(i);
+        }
+    }
+    None
+}
+
+/// True if libyaml, given only `prefix`, sees a first document whose root is a
+/// collection AND the start of a second document (the point at which xt's YAML
+/// detection trial stops reading).
+pub fn collection_then_second_document(prefix: &[u8]) -> bool {
+    // events_until_second_doc stops at the second DOCUMENT-START; distinguish it
+    // from "stream ended after one document" by counting explicit markers cheaply
+    match events_until_second_doc_counted(prefix) {
+        Some((is_coll, docs)) => is_coll && docs >= 2,
+        None => false,
+    }
+}
+
 fn events_until_second_doc(b: &[u8]) -> Option<bool> {
+    events_until_second_doc_counted(b).map(|x| x.0)
+}
+
+fn events_until_second_doc_counted(b: &[u8]) -> Option<(bool, usize)> {
     // Re-run the raw parser, stopping early; errors after the stop point are not
     // looked at (the chunker does not look there either).
     let mut first_kind: Option<bool> = None;
@@ -359,7 +401,7 @@ fn events_until_second_doc(b: &[u8]) -> Option<bool> {
             return None;
         }
     }
-    Some(first_kind.unwrap_or(false))
+    Some((first_kind.unwrap_or(false), docs))
 }
 
 #[cfg(test)]
